@@ -302,7 +302,7 @@ pub fn trace_of(id: u64, case: &CCase, r: &RunResult) -> (Vec<String>, String) {
     let o = v.as_object_mut().unwrap();
     o.insert("t".into(), json!(e.tid));
     o.insert("clk".into(), json!(e.clock / 1_000_000));
-    for f in ["u", "src", "v", "task"] {
+    for f in ["u", "src", "v", "task", "lock", "cv"] {
       o.entry(f).or_insert(json!(0));
     }
     o.entry("k").or_insert(json!(""));
@@ -330,7 +330,7 @@ pub struct Explored {
 }
 
 /// explore schedules of one case: bounded-preemption DFS (complete within the bound) or seeded random
-pub fn explore(case: &CCase, mode: &str, bound: usize, max_runs: u64, seed: u64, id_base: u64, out: &mut dyn Write, scheds: &mut Vec<serde_json::Value>, budget: u64) -> Explored {
+pub fn explore(case: &CCase, mode: &str, bound: usize, max_runs: u64, seed: u64, id_base: u64, out: &mut dyn Write, scheds: &mut Vec<serde_json::Value>, budget: u64, log_locks: bool) -> Explored {
   let mut seen: HashSet<String> = HashSet::new();
   let mut runs = 0u64;
   let mut exhausted = false;
@@ -347,7 +347,7 @@ pub fn explore(case: &CCase, mode: &str, bound: usize, max_runs: u64, seed: u64,
   if mode == "dfs" {
     let mut prefix: Vec<usize> = vec![];
     loop {
-      let r = run_ccase(case, Strategy::Dfs { prefix: prefix.clone() }, false, budget);
+      let r = run_ccase(case, Strategy::Dfs { prefix: prefix.clone() }, log_locks, budget);
       runs += 1;
       emit(&r, json!({"dfs": prefix}), &mut seen);
       // next prefix: backtrack to the deepest choice that has an untried alternative within the preemption bound
@@ -386,7 +386,7 @@ pub fn explore(case: &CCase, mode: &str, bound: usize, max_runs: u64, seed: u64,
   } else {
     for i in 0..max_runs {
       let s = seed.wrapping_mul(1_000_003).wrapping_add(i + 1);
-      let r = run_ccase(case, Strategy::Random { seed: s }, false, budget);
+      let r = run_ccase(case, Strategy::Random { seed: s }, log_locks, budget);
       runs += 1;
       emit(&r, json!({"random": s}), &mut seen);
     }
